@@ -34,13 +34,21 @@ META = {
             "if the set were absent), outer_locality (what a clean prefix decodes to does not depend on what follows) and "
             "decode_skips: for hdr ++ pre ++ u ++ post vs hdr ++ pre ++ post, where pre decodes on its own cleanly to its exact "
             "end and u is skipped at the cache reached there (Skipped; instances skipped_of_undecodable, skipped_of_unknownElem, Ipfix.skipped_of_noFields), "
-            "the records, the resulting cache and the fatal-error outcome are equal. nonfatal_reviewed: the declaration of nonfatalError "
+            "the records, the resulting cache and the fatal-error outcome are equal. gen_ir_decodeSet / gen_ir_decode: Decoder.decodeSet and "
+            "Decoder.Decode, re-translated statement by statement from the Go AST on every run (Vflow.Gen.IpfixIR) and interpreted with Go's "
+            "semantics (Vflow.Model.IpfixIR), ARE Ipfix.decodeSet / Ipfix.decode - same state, cache, records, returned error with its class "
+            "and its nonfatalError wrapping - for every datagram, cache and exporter address, given fuel above the octets to read and the "
+            "size of every cached template: the template lookup, err carried across the record loop, break / return inside it, the leftover "
+            "skip with its wrapping 16-bit difference and the non-fatal error collection are tied statically, not only by running both sides. "
+            "gen_ir_v9_decodeSet / gen_ir_v9_decode: the same for netflow/v9/decoder.go (Vflow.Gen.V9IR) against V9.decodeSet / V9.decode - "
+            "there what is left of a flowset is a difference of ints that may be negative, in the translation as in the model. nonfatal_reviewed: the declaration of nonfatalError "
             "in both decoders and every construction of one (= the models' non-fatal classes) are the reviewed inventory. The models are tied to ipfix/decoder.go and "
             "netflow/v9/decoder.go by running both on every insertion position and every truncation offset of sampled "
             "well-formed messages, with a model-independent prefix/equality oracle on the real decoder's output.",
     "ref": "DESIGN.md §6 C09",
     "note": "Trusted: Lean kernel; hand-written models Vflow.Model.Ipfix / Vflow.Model.V9 (Go semantics transcribed, lookupElem "
-            "opaque in the proofs); the correspondence harness and its generator bound what the tie sees. decode_skips carries "
+            "opaque in the proofs) - both models are PROVED equal to the interpreted translations of their decoder.go (gen_ir_*), so what is "
+            "trusted there is the translator go/cmd/factgen/ipfix_ir.go and the IR semantics Vflow.Model.IpfixIR; the correspondence harness and its generator bound what the tie sees. decode_skips carries "
             "the hypotheses 'pre decodes on its own to its exact end without a fatal error' (formalises 'between two sets') and "
             "'the decode without the inserted set does not exhaust the model fuel'.",
     "technique": "Lean 4 proof by lock-step simulation (truncation), count-shift invariance + fuel monotonicity (skip), "
